@@ -774,6 +774,33 @@ class CallMixin(object):
             for v in vals:
                 acc = self.call(st, args[0], [acc, v], {}, node, module)
             return acc
+        if dotted == "itertools.groupby" and 1 <= len(args) <= 2 and set(kwargs) <= {"key"}:
+            # consecutive elements with equal keys form a group (elements and keys must be static)
+            keyf = kwargs.get("key", args[1] if len(args) > 1 else None)
+            items = list(self.iter_values(st, args[0], node, module))
+            if not all(isinstance(g, Const) and truth_const(g.v) for g, _ in items):
+                raise AnalysisError("E5.call", "groupby() over conditionally present elements", node, module)
+            groups = []
+            for _, v in items:
+                k = v if keyf is None or (isinstance(keyf, Const) and keyf.v is None) else self.call(st, keyf, [v], {}, node, module)
+                if isinstance(k, Fin):
+                    k = st.folder().restrict(k)
+                if not isinstance(k, Const):
+                    raise AnalysisError("E5.call", "groupby() with a key that is not static", node, module)
+                if groups and T.ckey(groups[-1][0].v) == T.ckey(k.v):
+                    groups[-1][1].append(v)
+                else:
+                    groups.append((k, [v]))
+            out = []
+            for k, vs in groups:
+                sub = ListObj([(TRUE, x) for x in vs])
+                sub.one_shot = True
+                sub.iterator = True
+                out.append((TRUE, TupleVal([k, self.alloc(st, sub)])))
+            lo = ListObj(out)
+            lo.one_shot = True
+            lo.iterator = True
+            return self.alloc(st, lo)
         if dotted == "collections.defaultdict":
             if len(args) > 1 or kwargs:
                 raise AnalysisError("E5.call", "defaultdict() with initial content", node, module)
@@ -879,6 +906,9 @@ class CallMixin(object):
                 if p.kind == "flt":
                     self.hazard(st, "AttributeError", node, module, TRUE, "float has no quantize")
                 return P.atom(App("quant", (p,), (str(exp.v.q), mname)), "dec")
+            if name == "scaleb" and len(args) == 1 and isinstance(args[0], Const) and isinstance(args[0].v, int) and not isinstance(args[0].v, bool):
+                # exact: multiplication by a power of ten
+                return T.p_mul(p, P.const(Fraction(10) ** args[0].v, p.kind))
             if name in ("copy_abs", "normalize", "to_integral_value", "sqrt", "ln", "exp", "__round__"):
                 return P.atom(App("decmeth:" + name, (p,)), p.kind)
             raise AnalysisError("E5.call", "numeric method %s" % name, node, module)
